@@ -63,7 +63,10 @@ func VerifC26_Redemption() {
 	if vBool() {
 		shape = RedemptionChangeLast
 	}
-	shares := withRedemptionTotalFee(totalFee)(reqs)
+	// one distribution function, as the redemption action holds it: it is
+	// consulted here and again inside the assembly and must answer the same
+	dist := withRedemptionTotalFee(totalFee)
+	shares := dist(reqs)
 	var sum int64
 	for i, s := range shares {
 		sum += s
@@ -73,7 +76,7 @@ func VerifC26_Redemption() {
 	}
 	vAssert(len(shares) == n && sum == totalFee, "fee shares do not add up to the proposed total fee")
 	vAssert(shares[n-1]-shares[0] >= 0 && shares[n-1]-shares[0] < int64(n), "the last share must carry exactly the remainder")
-	b, err := assembleRedemptionTransaction(c, nil, utxo, reqs, withRedemptionTotalFee(totalFee), shape)
+	b, err := assembleRedemptionTransaction(c, nil, utxo, reqs, dist, shape)
 	vAssert(err == nil, "assembly failed for a coverable request list")
 	vReach("assembled")
 	tx := bitcoinTx(b)
